@@ -280,7 +280,8 @@ impl Client {
         let mut m = BTreeMap::new();
         for n in &self.notifications {
             if n["method"] == "textDocument/publishDiagnostics" {
-                let uri = n["params"]["uri"].as_str().unwrap_or("").to_string();
+                // (keyed by what the URI denotes: `%2B` and `+` are the same character of a path)
+                let uri = percent_decode(n["params"]["uri"].as_str().unwrap_or(""));
                 let mut ds: Vec<Value> = n["params"]["diagnostics"].as_array().cloned().unwrap_or_default().into_iter().map(|d| json!({"range": d["range"], "message": d["message"]})).collect();
                 ds.sort_by_key(|d| d.to_string());
                 m.insert(uri, (n["params"]["version"].as_i64(), ds));
@@ -346,7 +347,28 @@ fn find(hay: &[u8], needle: &[u8]) -> Option<usize> {
 
 static DIR_SEQ: AtomicU64 = AtomicU64::new(0);
 
+/// `%41` -> `A`; anything that is not a well-formed escape stays
+pub fn percent_decode(s: &str) -> String {
+    let b = s.as_bytes();
+    let mut out: Vec<u8> = Vec::with_capacity(b.len());
+    let mut i = 0;
+    while i < b.len() {
+        if b[i] == b'%' && i + 2 < b.len() {
+            if let (Some(h), Some(l)) = ((b[i + 1] as char).to_digit(16), (b[i + 2] as char).to_digit(16)) {
+                out.push((h * 16 + l) as u8);
+                i += 3;
+                continue;
+            }
+        }
+        out.push(b[i]);
+        i += 1;
+    }
+    String::from_utf8_lossy(&out).to_string()
+}
+
 pub struct TempWs {
+    /// the client spells its URIs the way VS Code does: everything but unreserved characters and `/` escaped
+    escape: bool,
     pub dir: PathBuf,
     /// the directory `dir` is a symbolic link to, when the workspace is reached through one
     real: Option<PathBuf>,
@@ -358,7 +380,19 @@ impl TempWs {
         let dir = base.join(format!("vcheck-ws-{}-{}", std::process::id(), DIR_SEQ.fetch_add(1, Ordering::SeqCst)));
         let _ = std::fs::remove_dir_all(&dir);
         std::fs::create_dir_all(&dir).expect("scratch dir");
-        TempWs { dir, real: None }
+        TempWs { escape: false, dir, real: None }
+    }
+    /// a directory whose name has characters that editors and the `url` crate escape differently (`+`,
+    /// `[`, `]`, a blank), and a client that escapes them all in the URIs it sends
+    pub fn new_special() -> TempWs {
+        let t = TempWs::new();
+        let dir = PathBuf::from(format!("{}+[x] y", t.dir.display()));
+        let _ = std::fs::remove_dir_all(&dir);
+        std::fs::rename(&t.dir, &dir).expect("scratch dir");
+        let mut t = t;
+        t.dir = dir;
+        t.escape = true;
+        t
     }
     /// the same, but the path the client uses (`dir`) is a symbolic link to the directory that
     /// holds the files (a checkout under a symlinked home or build tree)
@@ -388,6 +422,22 @@ impl TempWs {
         }
     }
     pub fn uri(&self, name: &str) -> String {
+        let raw = self.path(name).display().to_string();
+        if !self.escape {
+            return format!("file://{raw}");
+        }
+        let mut s = String::from("file://");
+        for b in raw.bytes() {
+            if b.is_ascii_alphanumeric() || matches!(b, b'-' | b'.' | b'_' | b'~' | b'/') {
+                s.push(b as char);
+            } else {
+                s.push_str(&format!("%{b:02X}"));
+            }
+        }
+        s
+    }
+    /// the URI as a key for comparisons: unescaped
+    pub fn key(&self, name: &str) -> String {
         format!("file://{}", self.path(name).display())
     }
     pub fn abs(&self, name: &str) -> String {
